@@ -997,11 +997,16 @@ func init() {
 		ID:    "C02",
 		Level: "exploration",
 		Rule: "reader cases: a random ground-truth WebVTT model (0..6 cues with ms times, numeric ids, 0..2-line NOTE comments, 0..3 regions in this library's 'Region: id=.. key=value' form with six attributes, cue settings subsets incl. region references, 0..2 STYLE blocks (also with a blank line inside an open block), optional X-TIMESTAMP-MAP in either key order, per line an optional voice, 1..4 segments with tag stacks of depth 0..3 over b/i/u/c.class[.class]/lang xx/ruby/rt carried across lines, inline timestamps placed before or after the opening tags) rendered 4 ways (EOL kinds, BOM, hh: optional, id numeric/absent/non-numeric, tabs or spaces before settings, header trailing text, </v> present or not, minimal or full escaping, region/style block order, shuffled settings) and read by the library; the projection must equal the model rune by rune (tag stack and timestamp per rune). " +
-			"writer cases: the models built from public types, written, decoded by the harness's own decoder (which rejects a region reference not defined earlier, misnested tags, out-of-range fields) and by the library reader; both must equal the model with ids 1..n. distinct_nontrivial = distinct documents compared.",
+			"writer cases: the models built from public types, written, decoded by the harness's own decoder (which rejects a region reference not defined earlier, misnested tags, out-of-range fields) and by the library reader; both must equal the model with ids 1..n. sweep cases: every block of 256 code points (quick: the BMP and one block per other plane; thorough: all 4352 blocks) written as cue text, 32 characters to a cue, and read back unchanged (white space, controls and the markup characters of the format left out). distinct_nontrivial = distinct documents compared.",
 		Assumptions: []string{"text lines do not begin with NOTE/STYLE/Region:, contain no '-->', have no white space at the edges; no white-space-only segment next to a timestamp; once a line has a timestamp every later segment of the line carries its own", "colour (<c.colour> derived from TTMLColor) is not part of the statement and is left unset", "a literal '<' is left raw only before a space or a tab"},
-		Cases:       func(tier string) int64 { return 2 * n(tier) },
+		Cases:       func(tier string) int64 { return 2*n(tier) + sweepBlocks(tier) },
 		Anchors:     []string{"ReadFromWebVTT", "parseTextWebVTT", "parseTextWebVTTTextToken", "parseWebVTTTimestampMap", "WriteToWebVTT", "Line.webVTTBytes", "LineItem.webVTTBytes", "WebVTTTag.startTag"},
 		Run: func(c *fw.Ctx) fw.Outcome {
+			if k := c.Idx - 2*n(c.Tier); k >= 0 {
+				return sweepCase(c, k, "webvtt", "<>&",
+					func(s *astisub.Subtitles, b *bytes.Buffer) error { return s.WriteToWebVTT(b) },
+					func(b []byte) (*astisub.Subtitles, error) { return astisub.ReadFromWebVTT(bytes.NewReader(b)) })
+			}
 			if c.Idx < n(c.Tier) {
 				return c02Reader(c)
 			}
